@@ -120,6 +120,13 @@ fn dump_font(f: &Font) -> String {
         }
         s.push_str(&hexs(&format!("{:?}", l.lib)));
     }
+    // everything else a load returns (outlines, identifiers, anchors, guidelines, font info), by its Debug text
+    for l in f.layers.iter() {
+        for g in l.iter() {
+            s.push_str(&format!(" GL:{:016x}", fnv(format!("{:?}", g).as_bytes())));
+        }
+    }
+    s.push_str(&format!(" FI:{:016x}", fnv(format!("{:?}", f.font_info).as_bytes())));
     let mut data: Vec<String> = f.data.iter().map(|(p, _)| p.to_string_lossy().to_string()).collect();
     data.sort();
     s.push_str(&format!(" DATA:{}", hexs(&data.join("|"))));
@@ -598,6 +605,107 @@ fn gen_lib_lines(rng: &mut Rng, n: usize, dir: &Path, out: &mut dyn Write) {
     }
 }
 
+// ---------------------------------------------------------------- trees the unchanged code refuses: duplicate identifiers
+//
+// `C10 dup <a> <b> <same> => ok d=<#outcomes> t=<#trees> | err d=<#outcomes>`
+// A format 3 tree with one glyph holding two objects of every kind that can carry an identifier (c contour, p point,
+// m component, a anchor, g guideline) and a fontinfo with two guidelines (F).  `same = 1`: the first object of kind `a`
+// and the second of kind `b` share one identifier (for F: the two fontinfo guidelines; `F g`: a fontinfo guideline and a
+// glyph guideline - different scopes).  Loaded repeatedly in-process and in fresh processes: the outcome class (ok /
+// which error) must be the same every time, and when ok the fonts equal (`d` = number of different outcomes).
+
+fn dup_tree(dir: &Path, a: &str, b: &str, same: bool) {
+    rm_rf(dir);
+    std::fs::create_dir_all(dir.join("glyphs")).unwrap();
+    let id = |kind: &str, n: usize| -> String {
+        if same && ((kind == a && n == 1) || (kind == b && n == 2)) {
+            "shared".to_string()
+        } else {
+            format!("{}{}", kind, n)
+        }
+    };
+    std::fs::write(dir.join("metainfo.plist"), format!("{}<dict>\n<key>creator</key>\n<string>verif</string>\n<key>formatVersion</key>\n<integer>3</integer>\n</dict>\n</plist>\n", PLIST_HEAD)).unwrap();
+    std::fs::write(dir.join("layercontents.plist"), format!("{}<array>\n<array>\n<string>public.default</string>\n<string>glyphs</string>\n</array>\n</array>\n</plist>\n", PLIST_HEAD)).unwrap();
+    std::fs::write(dir.join("glyphs").join("contents.plist"), format!("{}<dict>\n<key>a</key>\n<string>a.glif</string>\n</dict>\n</plist>\n", PLIST_HEAD)).unwrap();
+    std::fs::write(
+        dir.join("fontinfo.plist"),
+        format!("{}<dict>\n<key>guidelines</key>\n<array>\n<dict><key>x</key><integer>1</integer><key>identifier</key><string>{}</string></dict>\n<dict><key>y</key><integer>2</integer><key>identifier</key><string>{}</string></dict>\n</array>\n</dict>\n</plist>\n", PLIST_HEAD, id("F", 1), id("F", 2)),
+    )
+    .unwrap();
+    let glif = format!(
+        "<?xml version=\"1.0\" encoding=\"UTF-8\"?>\n<glyph name=\"a\" format=\"2\">\n<advance width=\"10\"/>\n\
+<guideline x=\"1\" identifier=\"{g1}\"/>\n<guideline y=\"2\" identifier=\"{g2}\"/>\n\
+<anchor x=\"0\" y=\"0\" name=\"t\" identifier=\"{a1}\"/>\n<anchor x=\"1\" y=\"1\" name=\"u\" identifier=\"{a2}\"/>\n\
+<outline>\n<component base=\"b\" identifier=\"{m1}\"/>\n<component base=\"b\" identifier=\"{m2}\"/>\n\
+<contour identifier=\"{c1}\">\n<point x=\"0\" y=\"0\" type=\"line\" identifier=\"{p1}\"/>\n<point x=\"5\" y=\"0\" type=\"line\"/>\n</contour>\n\
+<contour identifier=\"{c2}\">\n<point x=\"0\" y=\"9\" type=\"line\"/>\n<point x=\"5\" y=\"9\" type=\"line\" identifier=\"{p2}\"/>\n</contour>\n\
+</outline>\n</glyph>\n",
+        g1 = id("g", 1), g2 = id("g", 2), a1 = id("a", 1), a2 = id("a", 2), m1 = id("m", 1), m2 = id("m", 2),
+        c1 = id("c", 1), c2 = id("c", 2), p1 = id("p", 1), p2 = id("p", 2)
+    );
+    std::fs::write(dir.join("glyphs").join("a.glif"), glif).unwrap();
+}
+
+pub fn observe_dup(a: &str, b: &str, same: bool, dir: &Path, loads: usize, procs: usize) -> String {
+    let tree = dir.join("dup.ufo");
+    let out = dir.join("dupout.ufo");
+    dup_tree(&tree, a, b, same);
+    let mut outcomes: BTreeSet<String> = BTreeSet::new();
+    let mut trees: BTreeSet<u64> = BTreeSet::new();
+    let mut first: Option<String> = None;
+    for _ in 0..loads {
+        let (d, h, _) = load_save(&tree, &out, &[]);
+        if first.is_none() {
+            first = Some(d.clone());
+        }
+        outcomes.insert(d);
+        trees.insert(h);
+    }
+    let exe = std::env::current_exe().unwrap();
+    for j in 0..procs {
+        let o = dir.join(format!("dupp{}.ufo", j));
+        match std::process::Command::new(&exe).arg("c10child").arg(&tree).arg(&o).arg("E:").output() {
+            Ok(outp) if outp.status.success() => {
+                let txt = String::from_utf8_lossy(&outp.stdout).trim().to_string();
+                let mut it = txt.splitn(3, ' ');
+                let h = u64::from_str_radix(it.next().unwrap_or("0"), 16).unwrap_or(2);
+                let _ = it.next();
+                outcomes.insert(it.next().unwrap_or("").to_string());
+                trees.insert(h);
+            }
+            _ => {
+                outcomes.insert("child-failed".to_string());
+            }
+        }
+        rm_rf(&o);
+    }
+    rm_rf(&tree);
+    let first = first.unwrap_or_default();
+    if first.starts_with("err") || first == "panic" {
+        format!("err d={} {}", outcomes.len(), first.replace(' ', ":"))
+    } else {
+        format!("ok d={} t={}", outcomes.len(), trees.len())
+    }
+}
+
+const DUP_KINDS: &[&str] = &["c", "p", "m", "a", "g"];
+
+fn gen_dup_lines(dir: &Path, out: &mut dyn Write, loads: usize) {
+    let mut cases: Vec<(String, String, bool)> = vec![("c".into(), "c".into(), false), ("F".into(), "F".into(), true), ("F".into(), "g".into(), true)];
+    for (i, a) in DUP_KINDS.iter().enumerate() {
+        for b in &DUP_KINDS[i..] {
+            cases.push((a.to_string(), b.to_string(), true));
+            if a != b {
+                cases.push((b.to_string(), a.to_string(), true));
+            }
+        }
+    }
+    for (a, b, same) in cases {
+        let obs = observe_dup(&a, &b, same, dir, loads, 2);
+        writeln!(out, "C10 dup {} {} {} => {}", a, b, same as u8, obs).unwrap();
+    }
+}
+
 fn scratch() -> PathBuf {
     let p = scratch_root().join("c10");
     std::fs::create_dir_all(&p).unwrap();
@@ -605,6 +713,11 @@ fn scratch() -> PathBuf {
 }
 
 pub fn observe(toks: &[&str]) -> String {
+    if toks[1] == "dup" {
+        let r = observe_dup(toks[2], toks[3], toks[4] == "1", &scratch(), 24, 3);
+        rm_rf(&scratch());
+        return r;
+    }
     if toks[1] == "lib" {
         let r = observe_lib(&parse_val(toks[2]), &parse_val(toks[3]), &scratch());
         rm_rf(&scratch());
@@ -769,6 +882,7 @@ pub fn gen(tier: &str, seed: u64, out: &mut dyn Write) {
         let obs = observe_case(&c, &dir, loads, procs);
         writeln!(out, "{} => {}", c.tokens(), obs).unwrap();
     }
+    gen_dup_lines(&dir, out, loads);
     // feature tags that collapse under a normalisation: every case also in fresh processes (new hash seeds)
     for i in 0..(if thorough { 800 } else { 80 }) {
         let c = gen_variant_case(&mut rng);
